@@ -403,7 +403,7 @@ func buildObject(r *Recipe, st *buildStats) (obj geojson.Object) {
 	}
 	var sb strings.Builder
 	recipeJSON(r, &sb)
-	o, err := geojson.Parse(sb.String(), r.Opts.toLib())
+	o, err := geojson.Parse(styleJSON(sb.String(), r.Style), r.Opts.toLib())
 	if err != nil || o == nil {
 		st.errors++
 		return geojson.NewPoint(geometry.Point{X: 1, Y: 1})
@@ -554,4 +554,74 @@ func buildShared(rc *Recipe, earlier []geojson.Object) (obj geojson.Object) {
 	default:
 		return geojson.NewFeatureCollection(kids)
 	}
+}
+
+
+// styleJSON re-renders compact JSON text in another textual style without
+// changing its value: whitespace between tokens, the top-level "type" member
+// moved to the end, numbers in exponent notation.
+func styleJSON(js string, style int) string {
+	if style == 0 {
+		return js
+	}
+	ws := style == 1 || style == 4
+	typeLast := style == 2 || style == 4
+	expo := style == 3 || style == 4
+	if typeLast {
+		// top-level object starts with {"type":"X", ... } (recipeJSON always emits type first)
+		const pre = `{"type":"`
+		if strings.HasPrefix(js, pre) {
+			if k := strings.Index(js[len(pre):], `",`); k > 0 {
+				typ := js[len(pre) : len(pre)+k]
+				rest := js[len(pre)+k+2 : len(js)-1]
+				js = "{" + rest + `,"type":"` + typ + `"}`
+			}
+		}
+	}
+	if !ws && !expo {
+		return js
+	}
+	var out strings.Builder
+	inStr := false
+	for i := 0; i < len(js); i++ {
+		c := js[i]
+		if inStr {
+			out.WriteByte(c)
+			if c == '\\' && i+1 < len(js) {
+				i++
+				out.WriteByte(js[i])
+			} else if c == '"' {
+				inStr = false
+			}
+			continue
+		}
+		switch {
+		case c == '"':
+			inStr = true
+			out.WriteByte(c)
+		case expo && (c == '-' || (c >= '0' && c <= '9')):
+			j := i
+			for j < len(js) && (js[j] == '-' || js[j] == '+' || js[j] == '.' || js[j] == 'e' || js[j] == 'E' || (js[j] >= '0' && js[j] <= '9')) {
+				j++
+			}
+			if f, err := strconv.ParseFloat(js[i:j], 64); err == nil {
+				out.WriteString(strconv.FormatFloat(f, 'e', -1, 64))
+			} else {
+				out.WriteString(js[i:j])
+			}
+			i = j - 1
+		case ws && (c == ',' || c == ':'):
+			out.WriteByte(c)
+			out.WriteString(" ")
+		case ws && (c == '{' || c == '['):
+			out.WriteByte(c)
+			out.WriteString("\n  ")
+		case ws && (c == '}' || c == ']'):
+			out.WriteString(" \t")
+			out.WriteByte(c)
+		default:
+			out.WriteByte(c)
+		}
+	}
+	return out.String()
 }
